@@ -88,6 +88,15 @@ def _binval(t):
     return None
 
 
+def limbs(v):
+    """base-10^4 limbs, least significant first, each as a node (spec/lib/BigInt.tla)"""
+    out = []
+    while v > 0:
+        out.append(["#l", [], [], v % 10000])
+        v //= 10000
+    return out
+
+
 def project(t, lossless=False):
     """lossless: keep numerals beyond 31 bits (only for computing event keys; TLC cannot read them)"""
     args = []
@@ -109,7 +118,9 @@ def project(t, lossless=False):
     if h.name in ("bit0", "bit1") and len(args) == 1:
         v = _binval(t)
         if v is not None:
-            return ["#bin", ["nat"], [], v] if (v < 2 ** 31 or lossless) else ["#big", [], [], 0]
+            if v < 2 ** 31 or lossless:
+                return ["#bin", ["nat"], [], v]
+            return ["#bign", ["nat"], limbs(v), 0]     # TLC's integers are 32-bit: never a JSON number >= 2^31
     return [h.name, ts, [project(a, lossless) for a in args], 0]
 
 
@@ -118,6 +129,8 @@ def build(n):
     h, tys, args, k = n
     if h == "#bin":
         return kterm.Binary(k)
+    if h == "#bign":
+        return kterm.Binary(sum(a[3] * 10000 ** i for i, a in enumerate(args)))
     if h == "#var":
         return Var(tys[1], BASE[tys[0]])
     f = Const(h, TFun(*[BASE[x] for x in tys]))
@@ -391,22 +404,79 @@ def fam_floaty(log, rng, n):
 
 
 def fam_big(log, rng, n):
-    for _ in range(n):
-        T = rng.choice(["nat", "int", "real"])
-        a, b = rng.randrange(2 ** 20, 2 ** 45), rng.randrange(2 ** 20, 2 ** 45)
-        op = rng.choice(["plus", "times", "minus"])
-        l = b2(op, T, num(T, a), num(T, b))
-        v = {"plus": a + b, "times": a * b, "minus": a - b}[op]
-        if T == "nat" and v < 0:
-            v = 0
-        log.goal("big", rel("equals", T, l, num(T, v)))
-        log.goal("big", rel("equals", T, l, num(T, v + 1)))
-        log.goal("big", rel(rng.choice(RELS[1:]), T, l, num(T, v)))
-    for T in ("nat", "int", "real"):      # magnitudes around the 31-bit limit of the oracle
+    """magnitudes beyond native machine precision (2^53: doubles stop being exact; 2^62/2^64: machine words; 2^31: the oracle's
+    native integers): exact quotients (a*b)/b, non-exact ones, products / sums / differences crossing the boundaries, negative
+    ones, at nat / int / real where the evaluators apply.  Right-hand sides are the exact value and its neighbours (Python integer
+    arithmetic is used to BUILD the statements; TLC judges them with limb arithmetic)."""
+    R = "real"
+    anchors = [2 ** 53, 2 ** 53 + 1, 2 ** 53 - 1, 2 ** 62 + 1, 2 ** 64 - 1, 10 ** 20 + 1, 3 * 10 ** 15 + 1]
+    rand = [rng.randrange(2 ** 52, 2 ** 70) for _ in range(n)]
+
+    def quotient(a, d, deep):
+        forms = [b2("real_divide", R, num(R, a * d), num(R, d))]                 # a numeral that is not in normal form
+        if deep:
+            forms += [b2("real_divide", R, b2("times", R, num(R, a), num(R, d)), num(R, d)),
+                      b2("real_divide", R, C("of_int", "int", R)(b2("times", "int", num("int", a), num("int", d))), C("of_nat", "nat", R)(num("nat", d))),
+                      b2("real_divide", R, num(R, -a * d), num(R, d)), b2("real_divide", R, num(R, a * d), num(R, -d))]
+        for i, l in enumerate(forms):
+            v = -a if i >= 3 else a
+            if i > 0:
+                for k, w in (("less", v), ("greater", v), ("equals", v), ("equals", v - 1)):
+                    log.goal("big", rel(k, R, l, num(R, w)))
+                continue
+            for k in RELS:
+                log.goal("big", rel(k, R, l, num(R, v)))
+            log.goal("big", rel("equals", R, l, num(R, v + 1)))
+            log.goal("big", rel("equals", R, l, num(R, v - 1)))
+            log.goal("big", rel("less_eq", R, l, num(R, v - 1)))
+            log.goal("big", rel("greater_eq", R, l, num(R, v + 1)))
+            log.goal("big", neg(rel("equals", R, l, num(R, v))))
+            log.goal("big", rel("equals", R, b2("plus", R, l, num(R, 1)), num(R, v + 1)))       # inside a larger expression
+            log.goal("big", rel("equals", R, b2("minus", R, l, num(R, v)), num(R, 0)))
+    for j, a in enumerate(anchors):
+        quotient(a, (3, 2, 7, 10, 12345, 2 ** 40 + 1, 3)[j], deep=(j < 2))
+    for j, a in enumerate(rand):
+        quotient(a, rng.choice([2, 3, 5, 7, 10, 1000003, 2 ** 33 + 1]), deep=(j % 5 == 0))
+    # non-exact quotients
+    for a in anchors[:4] + rand[:max(3, n // 3)]:
+        d = rng.choice([3, 7, 10, 2 ** 33 + 1])
+        l = b2("real_divide", R, num(R, a * d + 1), num(R, d))
+        for r in (num(R, a), num(R, a + 1), num(R, Fraction(a * d + 1, d)), num(R, Fraction(a * d + 2, d))):
+            k = rng.choice(RELS)
+            log.goal("big", rel("equals", R, l, r))
+            log.goal("big", rel(k, R, l, r))
+    # sums, differences and products crossing the boundaries, at every type
+    pairs = [(2 ** 53 - 1, 2), (2 ** 53, 1), (2 ** 27 + 1, 2 ** 27 - 1), (2 ** 32, 2 ** 32), (2 ** 62, 2 ** 62), (94906267, 94906265),
+             (2 ** 31 - 1, 2), (10 ** 10 + 1, 10 ** 10 - 1)]
+    pairs += [(rng.randrange(2 ** 20, 2 ** 45), rng.randrange(2 ** 20, 2 ** 45)) for _ in range(max(3, n // 3))]
+    for i, (a, b) in enumerate(pairs):
+        for T in (("nat", "int", "real") if i < 3 else (("nat", "int", "real")[i % 3],)):
+            for op in ("plus", "times", "minus"):
+                for x, y in ((a, b), (b, a)) if op == "minus" else ((a, b),):
+                    l = b2(op, T, num(T, x), num(T, y))
+                    v = {"plus": x + y, "times": x * y, "minus": x - y}[op]
+                    if T == "nat" and v < 0:
+                        v = 0
+                    if T != "nat" and op == "times" and i % 2 == 1:
+                        l, v = b2(op, T, num(T, -x), num(T, y)), -v
+                    log.goal("big", rel("equals", T, l, num(T, v)))
+                    log.goal("big", rel("equals", T, l, num(T, v + 1)))
+                    log.goal("big", rel(rng.choice(RELS[1:]), T, l, num(T, v if i % 2 == 0 or v == 0 else v - 1)))
+    for T in ("nat", "int", "real"):      # magnitudes around the limit of the oracle's native integers
         for a, b in ((32768, 32768), (32767, 32768), (46340, 46341), (2 ** 15, 2 ** 15 - 1), (2 ** 29, 2), (2 ** 30 - 1, 1)):
             for v in (a * b, a * b + 1):
                 log.goal("big", rel("equals", T, b2("times", T, num(T, a), num(T, b)), num(T, v)))
                 log.goal("big", rel("less", T, b2("times", T, num(T, a), num(T, b)), num(T, v)))
+    # big powers and the float path (abs / sqrt make real_eval give up)
+    for a in anchors[:3]:
+        log.goal("big", rel("equals", R, C("power", R, "nat", R)(num(R, 2), num("nat", 64)), num(R, 2 ** 64)))
+        log.goal("big", rel("less", R, C("power", R, "nat", R)(num(R, 2), num("nat", 64)), num(R, 2 ** 64)))
+        w = C("abs", R, R)(num(R, -a * 3))
+        for k in RELS:
+            log.goal("big", rel(k, R, b2("real_divide", R, w, num(R, 3)), num(R, a)))
+        log.goal("big", rel("greater", R, b2("real_divide", R, w, num(R, 3)), num(R, a - 1)))
+        log.goal("big", rel("less", R, b2("plus", R, C("abs", R, R)(num(R, a)), num(R, 1)), num(R, a + 1)))
+        log.goal("big", rel("greater", R, b2("plus", R, C("abs", R, R)(num(R, a)), num(R, 1)), num(R, a)))
 
 
 def fam_odd(log, rng):
@@ -577,7 +647,7 @@ def mode_rand(out_path, n, seed):
     fam_pairs(log, rng, n)
     fam_near(log, random.Random(seed * 31 + 1), max(20, n // 10), qs=(3, 7, 10) if small else (3, 7, 10, 6, 9, 11, 13))
     fam_floaty(log, random.Random(seed * 31 + 2), max(30, n // 4))
-    fam_big(log, random.Random(seed * 31 + 3), max(40, n // 20))
+    fam_big(log, random.Random(seed * 31 + 3), max(4, n // 40))
     fam_poly(log, random.Random(seed * 31 + 4), max(40, n // 3))
     fam_exponent(log, random.Random(seed * 31 + 6), max(25, n // 6))
     fam_eqcmp(log, random.Random(seed * 31 + 5), max(40, n // 20))
